@@ -5,15 +5,20 @@ inputs untouched, ownership = result in fresh storage) are postconditions / fram
 operation (C05 sort_tree, C06 to_subtree / get_subtree_impl / propagate_removal, C07 redirect_tree / cat_tree, C12 AffineTransform /
 TranslateOrigin, C16 smoother / resampler).  They are re-verified here through DEPENDS, so a change that makes one of those
 operations write into its input or hand out shared storage fails under C03 as well.
-What C03 owns is the composition: `Transforms.__call__` (any number of member transforms) and `Identity`.
+What C03 owns is the composition: `Transforms.__call__` (any number of member transforms) and `Identity`, the two
+non-affine geometry transforms `Normalizer` and `RadiusReseter`, and the REFINEMENT obligations that connect the abstract
+single-step contract of the pipeline theorem to the real operations (section "step contract" below).
 """
 import z3
 
+from contracts.common import col, nof, sym_tree
+from pyvc import ext_C03
 from pyvc.spec import Registry
-from pyvc.values import Obj, Opaque, PList, Sym, fresh, fresh_name, to_z3, zint
+from pyvc.values import NArr, Obj, Opaque, PList, SArr, Sym, fresh, fresh_name, to_z3, zint
 
 DEPENDS = ["C05", "C06", "C07", "C12", "C16"]
 BASE = "swcgeom/transforms/base.py"
+GEO = "swcgeom/transforms/geometry.py"
 I, B = z3.IntSort(), z3.BoolSort()
 WF = z3.Function("WFtree", I, B)       # ghost: the tree behind a handle is well formed
 born = z3.Function("born", I, I)       # ghost: allocation time of the storage behind a handle
@@ -77,5 +82,221 @@ def register(R: Registry):
           notes="pipelines of ANY length; member transforms are abstract and satisfy the single-step contract")
 
     R.add(f"{BASE}:Identity.__call__", prop="C03", pure_inline=True,
-          setup=lambda S: dict(self=S.obj(__import__("swcgeom.transforms.base", fromlist=["x"]).Identity), x=S.int("x")),
-          ensures=[("returns-its-argument-itself", lambda E, v, o: to_z3(v["result"], "int") == to_z3(o["x"], "int"))])
+          setup=lambda S: dict(self=S.obj(__import__("swcgeom.transforms.base", fromlist=["x"]).Identity), x=sym_tree(S, "x")),
+          ensures=[("returns-its-argument-itself", lambda E, v, o: v["result"] is v["x"])] + step_clauses(may_return_input=True))
+
+
+# =========================================================================== step contract, concretely
+# The pipeline theorem above is stated over abstract handles (WFtree / born / stamp).  For a REAL operation op(x, ...) -> y
+# the three conjuncts of the single-step contract read:
+#   step/result-is-well-formed                              WF(x) [and WF of a second operand] ==> WF(y)
+#   step/result-is-the-input-itself-or-freshly-allocated    y is x, or the tree object y, its ndata dict and every column array were
+#                                                           allocated during the call (born(y) > now)
+#   step/nothing-older-written                              every input tree is, at the exit, what it was at the entry (stamp unchanged)
+# WF(t) is the property's definition: one length n >= 1 for all columns, id[i] = i, pid[0] = -1, 0 <= pid[i] < n for i > 0, and every
+# node reaches the root.  "Reaches the root" is carried by a ghost DEPTH witness d (d(0) = 0, d(i) = d(pid[i]) + 1 > 0), the same
+# definition as contracts/common.py: assume_wf and the preconditions of C05 / C06 / C07: in a hypothesis d is a fresh uninterpreted
+# function (exists-elimination), in a conclusion the clause supplies the witness (the input's own when ids and parents are kept, the
+# input's read through the relabelling otherwise).
+def _sel(a, i):
+    """a[i] for a symbolic-length (SArr) or a concrete-shape (NArr) column"""
+    if isinstance(a, SArr):
+        return z3.Select(a.arr, i)
+    items = a.items
+    z = to_z3(items[-1], a.kind)
+    for j in range(len(items) - 2, -1, -1):
+        z = z3.If(i == j, to_z3(items[j], a.kind), z)
+    return z
+
+
+def _alen(a):
+    return a.nz() if isinstance(a, SArr) else z3.IntVal(a.shape[0])
+
+
+def _forall(n, f):
+    """forall i in [0, n): f(i) -- a conjunction when n is a Python int (concrete-shape trees)"""
+    if isinstance(n, int):
+        return z3.And(*[f(z3.IntVal(i)) for i in range(n)]) if n else z3.BoolVal(True)
+    i = z3.Int(fresh_name("i"))
+    return z3.ForAll([i], z3.Implies(z3.And(i >= 0, i < n), f(i)))
+
+
+def wf(t, d, root=None):
+    """WF(t).  Symbolic size: `d` (callable z3 Int -> z3 Int) is the depth witness of "every node reaches the root"
+    (d(root) = 0, d(i) = d(pid[i]) + 1 > 0 otherwise; the definition of contracts/common.py: assume_wf).  Concrete size (NArr columns):
+    reaching the root is the finite formula "n - 1 parent steps arrive at the root" and `d` is not used.
+    `root` (z3 Int) replaces node 0 as the root position (re-rooting with sorting switched off)."""
+    nd = t.fields["ndata"].items
+    ids, pid = nd["id"], nd["pid"]
+    r = z3.IntVal(0) if root is None else root
+    if isinstance(ids, NArr):
+        n = ids.shape[0]
+        if n < 1 or any(a.shape != (n,) for a in nd.values()):
+            return z3.BoolVal(False)
+        nz = z3.IntVal(n)
+        pz = [to_z3(x, "int") for x in pid.items]
+        reach = [z3.IntVal(a) == r for a in range(n)]
+        for _ in range(n - 1):
+            reach = [z3.Or(reach[a], *[z3.And(pz[a] == b, reach[b]) for b in range(n) if b != a]) for a in range(n)]
+        reaches = z3.And(*reach)
+    else:
+        n = nz = ids.nz()
+        reaches = z3.And(d(r) == 0, _forall(n, lambda i: z3.Implies(i != r, z3.And(d(i) == d(_sel(pid, i)) + 1, d(i) > 0))))
+    return z3.And(nz >= 1, r >= 0, r < nz, *[_alen(nd[c]) == nz for c in nd],
+                  _forall(n, lambda i: _sel(ids, i) == i),
+                  _sel(pid, r) == -1,
+                  _forall(n, lambda i: z3.Implies(i != r, z3.And(_sel(pid, i) >= 0, _sel(pid, i) < nz))),
+                  reaches)
+
+
+def fresh_depth(tag="d"):
+    return z3.Function(fresh_name("wfdepth_" + tag), I, I)
+
+
+def tree_is_fresh(E, y):
+    nd = y.fields["ndata"]
+    cols = [a.root() if isinstance(a, NArr) else a for a in nd.items.values()]
+    return y.uid not in E.entry_uids and nd.uid not in E.entry_uids and all(a.uid not in E.entry_uids for a in cols) \
+        and len({a.uid for a in cols}) == len(cols)
+
+
+def step_clauses(inputs=("x",), witness=None, root=None, may_return_input=False, admissible=None, result=None):
+    """the three step clauses for a carrier whose tree parameters are `inputs` (the first one is THE input of the pipeline step).
+    witness(E, v, o, ds) -> callable: depth witness of the result, given the witnesses `ds` of the inputs (default: the first input's own,
+    right for operations that keep ids and parents);  root(E, v, o): root position of the result when it is not node 0;
+    admissible(E, v, o): the operation's argument domain (added to the hypothesis of the well-formedness clause);
+    result(E, v, o): the tree the clauses speak about when it is not `result` itself"""
+    from contracts.C12 import tree_unchanged
+
+    def res_of(E, v, o):
+        return result(E, v, o) if result is not None else v["result"]
+
+    def well_formed(E, v, o):
+        y = res_of(E, v, o)
+        if not isinstance(y, Obj) or "ndata" not in y.fields:
+            return False
+        ds = [fresh_depth(nm) for nm in inputs]
+        hyp = [wf(o[nm], d) for nm, d in zip(inputs, ds)]
+        if admissible is not None:
+            hyp.append(admissible(E, v, o))
+        w = witness(E, v, o, ds) if witness is not None else ds[0]
+        if w is None:
+            return False
+        return z3.Implies(z3.And(*hyp), wf(y, w, root(E, v, o) if root is not None else None))
+
+    def fresh_or_input(E, v, o):
+        y = res_of(E, v, o)
+        if may_return_input and y is v[inputs[0]]:
+            return True
+        return isinstance(y, Obj) and tree_is_fresh(E, y)
+
+    def untouched(E, v, o):
+        out = [tree_unchanged(v[nm], o[nm]) for nm in inputs]
+        if any(x is False for x in out):
+            return False
+        out = [x for x in out if x is not True]
+        return z3.And(*out) if out else True
+
+    return [("step/result-is-well-formed", well_formed), ("step/nothing-older-written", untouched),
+            ("step/result-is-the-input-itself-or-freshly-allocated", fresh_or_input)]
+
+
+# =========================================================================== Normalizer / RadiusReseter
+XYZR = ("x", "y", "z", "r")
+
+
+def register_geometry(R):
+    import swcgeom.transforms.geometry as G
+    from contracts.C12 import tree_unchanged
+
+    def kept(cols):
+        """the columns `cols` of the result are elementwise the input's (in fresh storage, see the step clause), same key set"""
+        def f(E, v, o):
+            x0, y = o["x"], v["result"]
+            if list(y.fields["ndata"].items) != list(x0.fields["ndata"].items):
+                return False
+            i = z3.Int(fresh_name("i"))
+            n = nof(x0)
+            return z3.And(*[col(y, c).nz() == n for c in y.fields["ndata"].items],
+                          z3.ForAll([i], z3.Implies(z3.And(i >= 0, i < n), z3.And(*[z3.Select(col(y, c).arr, i) == z3.Select(col(x0, c).arr, i) for c in cols]))))
+
+        return f
+
+    # ---------------------------------------------------------------- Normalizer.__call__
+    # what the code does, per column c of x, y, z, r:  c'[i] = (c[i] - min(c)) / max(c)   (max of the ORIGINAL column, not of the shifted
+    # one: the result spans [0, (max - min) / max], which is the unit interval only when min(c) = 0).  Admissible input: max(c) != 0.
+    def norm_setup(S):
+        x = sym_tree(S, "x")
+        g = {}
+        for c in XYZR:
+            mn, mx = S.real(f"min_{c}"), S.real(f"max_{c}")
+            S.assume(ext_C03.extreme_facts(col(x, c).arr, nof(x), mn.z, z3.Int(fresh_name("wmin")), True))   # ghost: THE minimum / maximum of the
+            S.assume(ext_C03.extreme_facts(col(x, c).arr, nof(x), mx.z, z3.Int(fresh_name("wmax")), False))  # non-empty column (exists, unique)
+            g[c] = (mn, mx)
+        return dict(self=S.obj(G.Normalizer), x=x, __ghost__=dict(ext=g))
+
+    def nondegenerate(E, v, o):
+        return z3.And(*[mx.z != 0 for _, mx in E.spec_extra["ext"].values()])
+
+    def normalised(E, v, o):
+        x0, y = o["x"], v["result"]
+        i = z3.Int(fresh_name("i"))
+        out = []
+        for c, (mn, mx) in E.spec_extra["ext"].items():
+            q, p = z3.Select(col(y, c).arr, i), z3.Select(col(x0, c).arr, i)
+            out.append(z3.And(q == (p - mn.z) / mx.z, q * mx.z == p - mn.z))
+        return z3.ForAll([i], z3.Implies(z3.And(i >= 0, i < nof(x0)), z3.And(*out)))
+
+    R.add(f"{GEO}:Normalizer.__call__", prop="C03", setup=norm_setup,
+          requires=[("no-column-of-x-y-z-r-has-maximum-zero", nondegenerate)],
+          ensures=[("x-y-z-r-shifted-by-their-minimum-and-divided-by-their-maximum", normalised), ("ids-types-parents-kept", kept(("id", "type", "pid")))]
+          + step_clauses(),
+          options=dict(models=ext_C03.MODELS))
+
+    # ---------------------------------------------------------------- RadiusReseter.__call__
+    def rr_setup(S):
+        return dict(self=S.obj(G.RadiusReseter, r=S.real("r_new")), x=sym_tree(S, "x"))
+
+    def radii_reset(E, v, o):
+        y = v["result"]
+        i = z3.Int(fresh_name("i"))
+        return z3.ForAll([i], z3.Implies(z3.And(i >= 0, i < nof(o["x"])), z3.Select(col(y, "r").arr, i) == to_z3(o["self"].fields["r"], "real")))
+
+    R.add(f"{GEO}:RadiusReseter.__call__", prop="C03", setup=rr_setup,
+          ensures=[("every-radius-is-the-requested-one", radii_reset), ("everything-else-kept", kept(("id", "type", "x", "y", "z", "pid"))),
+                   "transform-object-untouched :: self.r == old(self.r)"] + step_clauses())
+
+
+_reg_pipeline = register
+
+
+def register(R):  # noqa: F811
+    _reg_pipeline(R)
+    register_geometry(R)
+
+
+# =========================================================================== refinement: proved postconditions ==> step contract
+# For every library operation that is under contract in the modules C03 DEPENDS on, the three step clauses are APPENDED to that
+# contract's postconditions (second registration pass, `finalize`, run by vcheck when every module has registered; only while C03 is
+# being checked).  They are therefore proved on the REAL body, on the same paths and AFTER the operation's own postconditions, which
+# are hypotheses by then (an obligation that has been emitted is assumed for the rest of the path): each
+# `<operation>/post/step/...` obligation is "the operation's proved postconditions ==> the step contract of Transforms.__call__".
+def finalize(R, prop):
+    if prop != "C03":
+        return
+    UT = "swcgeom/core/tree_utils.py"
+
+    def base(key, owner):
+        for c in R.alts.get(key, []):
+            if c.prop == owner and not c.trusted:
+                return c
+        raise KeyError(f"C03 step refinement: no {owner} contract for {key}")
+
+    def extend(key, owner, **kw):
+        c = base(key, owner)
+        if not any(isinstance(cl, tuple) and cl[0].startswith("step/") for cl in c.ensures):
+            c.ensures.extend(step_clauses(**kw))
+
+    # ---- geometry (C12): ids and parents are never written, the input's depth witness serves the result
+    for nm in ("AffineTransform.__call__", "AffineTransform.apply", "TranslateOrigin.transform", "TranslateOrigin.__call__"):
+        extend(f"{GEO}:{nm}", "C12")
